@@ -14,6 +14,7 @@
      start + size) is wrong for 64-bit headers.
 Not decided: equality of parse results across layout variants (a runtime relation).
 """
+import re
 import c04
 import c06
 import hirq
@@ -575,6 +576,113 @@ def run(fx, chk, tier):
                     else:
                         chk.bad("R7", key, "the walk over the children stops at a child whose size is in %s..%s: a well-formed empty child (size %d: free, skip or an unknown box) placed before the wanted child ends the search, so the parse depends on the order of siblings" % (lo, hi, HS), site_)
     chk.floor("R7", "size-based stops in child walks", nstop, 19)
+    # ---------------- R8: spare bytes after the last field are tolerated
+    chk.rule("R8", "a decoder whose fields and counted tables do not extend to the end of the box never rejects a box because of bytes left over: no rejection is guarded by a remainder test of the box size (a decoder that derives a repetition count from the size, like ftyp, consumes the whole box and is exempt)")
+    nrem = ndec = 0
+    for fid, fn in sorted(fx.fns.items()):
+        tr = short((fn.get("impl") or {}).get("trait") or "")
+        body = body_of(fn)
+        if not tr.startswith("ReadBox<") or body is None or fn.get("derived"):
+            continue
+        ndec += 1
+
+        def size_only(c):
+            return "$2" in c and re.search(r"\$[13-9]|read_|stream_position|Index::|Iterator::|Seek::", c) is None
+        def const_like(o):
+            return op_const(o) is not None or re.search(r"\$\d|read_|stream_position|Index::|Iterator::|Seek::", body.canon_op(o)) is None
+        count_from_size = False
+        rems = []
+        for b in body.reach:
+            for i, s_ in enumerate(body.stmts(b)):
+                if s_["k"] != "assign" or s_["rv"]["k"] not in ("bin", "checked"):
+                    continue
+                op_ = s_["rv"].get("op")
+                if op_ in ("Div",) and size_only(body.canon_op(s_["rv"]["a"])) and const_like(s_["rv"]["b"]) and not s_["place"]["p"]:
+                    # used as the bound of a range loop?  (copies followed forward)
+                    holders = {s_["place"]["l"]}
+                    for _ in range(4):
+                        for b3 in body.reach:
+                            for s3 in body.stmts(b3):
+                                if s3["k"] == "assign" and not s3["place"]["p"] and s3["rv"]["k"] in ("use", "cast"):
+                                    src3 = op_place(s3["rv"]["a"])
+                                    if src3 is not None and not src3["p"] and src3["l"] in holders:
+                                        holders.add(s3["place"]["l"])
+                    for b3 in body.reach:
+                        for s3 in body.stmts(b3):
+                            if s3["k"] == "assign" and s3["rv"]["k"] == "agg" and "Range" in str(s3["rv"].get("adt") or ""):
+                                for o3 in s3["rv"].get("ops", []):
+                                    p3 = op_place(o3)
+                                    if p3 is not None and not p3["p"] and p3["l"] in holders:
+                                        count_from_size = True
+                if op_ == "Rem" and size_only(body.canon_op(s_["rv"]["a"])) and const_like(s_["rv"]["b"]) and not s_["place"]["p"]:
+                    rems.append((b, s_["place"]["l"], op_const(s_["rv"]["b"]) if op_const(s_["rv"]["b"]) is not None else body.op_str(s_["rv"]["b"]), s_.get("line")))
+        oks = set(LP.ok_blocks(body))
+        # an upper bound or an exact value demanded of the size (`size != 16`, `size > 24`): same intolerance
+        if not count_from_size:
+            NEG = {"Eq": "Ne", "Ne": "Eq", "Lt": "Ge", "Ge": "Lt", "Gt": "Le", "Le": "Gt"}
+            FLIP = {"Eq": "Eq", "Ne": "Ne", "Lt": "Gt", "Gt": "Lt", "Le": "Ge", "Ge": "Le"}
+            for b in body.reach:
+                t = body.term(b)
+                if t["k"] != "switch":
+                    continue
+                dl = op_place(t["discr"])
+                d = body.single_def(dl["l"]) if dl is not None and not dl["p"] else None
+                if d is None or d[2] != "assign" or d[3]["k"] != "bin" or d[3].get("op") not in NEG:
+                    continue
+                ca, cb = body.canon_op(d[3]["a"]), body.canon_op(d[3]["b"])
+                if size_only(ca) and const_like(d[3]["b"]) and "$2" not in cb:
+                    rel = d[3]["op"]
+                elif size_only(cb) and const_like(d[3]["a"]) and "$2" not in ca:
+                    rel = FLIP[d[3]["op"]]
+                else:
+                    continue
+                t_true = t["otherwise"]
+                t_false = next((tg for v, tg in t["targets"] if v == 0), None)
+                for tgt, holds in ((t_true, rel), (t_false, NEG[rel])):
+                    if tgt is None or tgt in oks or any(body.can_reach(tgt, o) for o in oks):
+                        continue
+                    if holds in ("Ne", "Gt", "Ge"):
+                        nrem += 1
+                        chk.bad("R8", "%s|size %s" % (fn_short(fid), holds), "%s rejects a box because its size is %s a constant: bytes after the last field (which every other decoder skips) make the file unreadable" % (
+                            fn_short(fid), {"Ne": "different from", "Gt": "greater than", "Ge": "at least"}[holds]), site_of(fn, t.get("line")))
+        if not rems:
+            continue
+        for rb, rl, c_, line_ in rems:
+            nrem += 1
+            key = "%s|size %% %s" % (fn_short(fid), c_)
+            if count_from_size:
+                chk.ok("R8", key, "the decoder derives a repetition count from the size: it consumes the whole box, a remainder is malformed data, not spare bytes", site_of(fn, line_))
+                continue
+            # does a branch on (rem ==/!= 0) lead to a block from which no successful return is reachable?
+            rejects = False
+            for b in body.reach:
+                t = body.term(b)
+                if t["k"] != "switch":
+                    continue
+                dl = op_place(t["discr"])
+                d = body.single_def(dl["l"]) if dl is not None and not dl["p"] else None
+                uses_rem = False
+                if dl is not None and dl["l"] == rl:
+                    uses_rem = True
+                elif d is not None and d[2] == "assign" and d[3]["k"] == "bin" and d[3].get("op") in ("Eq", "Ne", "Gt", "Lt", "Ge", "Le"):
+                    for side in ("a", "b"):
+                        pl = op_place(d[3][side])
+                        for _ in range(3):
+                            if pl is None or pl["p"] or pl["l"] == rl:
+                                break
+                            sd = body.single_def(pl["l"])
+                            pl = op_place(sd[3]["a"]) if sd and sd[2] == "assign" and sd[3]["k"] == "use" else None
+                        if pl is not None and not pl["p"] and pl["l"] == rl:
+                            uses_rem = True
+                if not uses_rem:
+                    continue
+                for tgt in [x[1] for x in t["targets"]] + [t["otherwise"]]:
+                    if tgt not in oks and not any(body.can_reach(tgt, o) for o in oks):
+                        rejects = True
+            chk.require(not rejects, "R8", key, "the remainder test does not guard a rejection",
+                        "%s rejects a box whose size leaves a remainder modulo %s: bytes after the last field (which every other decoder skips) make the file unreadable" % (fn_short(fid), c_), site_of(fn, line_))
+    chk.floor("R8", "box decoders scanned for size-remainder rejections", ndec, 40)
+    chk.analysed["size_remainder_tests"] = nrem
     from packs_common import compose
     chk.rule("R6", "sample offsets move with the layout: the offset arithmetic of both lookups is dimension-, scope- and sign-correct, so media data before its header (negative run offset) or beyond 4 GiB resolves like any other layout (C03 / C09 R-UNITS instances)")
     compose(fx, chk, tier, "R6", "C03", ["R-UNITS"], floor=15, what="non-fragmented offset arithmetic obligations")
